@@ -8,6 +8,7 @@ mod c05;
 mod c06;
 mod c07;
 mod c08;
+mod c09w;
 mod c10;
 mod c11;
 mod c12;
@@ -49,6 +50,7 @@ fn main() {
             return;
         }
         "fmt" => fmt::run(&mut out, tier, seed),
+        "c09w" => c09w::run(&mut out, tier, seed),
         "rundir" => {
             let mut names: Vec<String> = std::fs::read_dir(&args[5]).expect("dir").filter_map(|e| e.ok()).map(|e| e.path().to_string_lossy().to_string()).filter(|p| p.ends_with(".incn")).collect();
             names.sort();
